@@ -5,6 +5,7 @@ import (
 	"encoding/json"
 	"fmt"
 	"math/big"
+	"strings"
 
 	sdk "github.com/cosmos/cosmos-sdk/types"
 	sdkquery "github.com/cosmos/cosmos-sdk/types/query"
@@ -307,6 +308,15 @@ func (e *env) genQuery() *query {
 	grpc := func(kind, path string, m proto.Message) {
 		q.Kind, q.Path, q.Data = kind, path, mustMarshal(m)
 	}
+	if len(e.traceOld) > 0 && r.Chance(1, 7) { // the same trace of a recorded block / transaction again, some blocks later
+		old := vh.Pick(r, e.traceOld)
+		c := *old
+		c.Desc = map[string]any{"re-asked": true}
+		for k, v := range old.Desc {
+			c.Desc[k] = v
+		}
+		return &c
+	}
 	k := r.Intn(100)
 	switch {
 	case k < 24: // EthCall
@@ -404,6 +414,19 @@ func (e *env) genTrace(q *query, block bool) {
 		}
 		if len(cands) > 0 {
 			rec = vh.Pick(r, cands)
+			var ww []*blockRec
+			for _, b := range cands {
+				if b.Writer {
+					ww = append(ww, b)
+				}
+			}
+			if len(ww) > 0 && r.Chance(2, 3) { // prefer blocks whose execution depended on their own time, traced with the struct logger
+				rec = vh.Pick(r, ww)
+				if r.Bool() {
+					tc = traceConfigs[0]
+					q.Desc["tracer"] = tc.name
+				}
+			}
 		}
 	}
 	if rec != nil {
@@ -414,11 +437,26 @@ func (e *env) genTrace(q *query, block bool) {
 			req := &evmtypes.QueryTraceBlockRequest{Txs: rec.EthMsgs, TraceConfig: tc.cfg, BlockNumber: rec.Height, BlockHash: hex.EncodeToString(rec.Hash), BlockTime: rec.Time, ProposerAddress: rec.Proposer}
 			q.Kind, q.Path, q.Data, q.Sub = "evm/TraceBlock", "/ethermint.evm.v1.Query/TraceBlock", mustMarshal(req), "recorded-block"
 			q.Desc["txs"] = len(rec.EthMsgs)
+			all := true
+			for _, x := range rec.EthExec {
+				all = all && x
+			}
+			if all && strings.HasPrefix(tc.name, "struct-") {
+				q.Desc["executed_gas_used_per_tx"] = append([]uint64{}, rec.EthGas...)
+			}
 		} else {
 			i := r.Intn(len(rec.EthMsgs))
 			req := &evmtypes.QueryTraceTxRequest{Msg: rec.EthMsgs[i], Predecessors: rec.EthMsgs[:i], TraceConfig: tc.cfg, BlockNumber: rec.Height, BlockHash: hex.EncodeToString(rec.Hash), BlockTime: rec.Time, ProposerAddress: rec.Proposer}
 			q.Kind, q.Path, q.Data, q.Sub = "evm/TraceTx", "/ethermint.evm.v1.Query/TraceTx", mustMarshal(req), "recorded-tx"
 			q.Desc["predecessors"] = i
+			// every predecessor executed and so did the traced one: the trace re-executes exactly what the block did
+			all := rec.EthExec[i]
+			for k := 0; k < i; k++ {
+				all = all && rec.EthExec[k]
+			}
+			if all && strings.HasPrefix(tc.name, "struct-") {
+				q.Desc["executed_gas_used"] = rec.EthGas[i]
+			}
 		}
 		return
 	}
